@@ -39,6 +39,9 @@ POLICIES = [
     {"default": dict(_BASE, attribute_restrictions=None, fail_on_missing_requested=False)},                  # 5
     {"default": dict(_BASE, attribute_restrictions={"givenName": None, "mail": [RX]}, fail_on_missing_requested=False)},  # 6
     {"default": dict(_BASE, entity_categories=["refeds"], attribute_restrictions={"mail": [RX], "sn": None})},           # 7 EC + restrictions
+    {"default": dict(_BASE, attribute_restrictions={"givenName": None, "mail": [RX]}), SP_DECL: {"lifetime": {"minutes": 5}},
+     SP_NONE: {"nameid_format": saml.NAMEID_FORMAT_PERSISTENT}},                                               # 8 per-SP entries that set only other keys
+    {"default": dict(_BASE, entity_categories=["refeds"]), SP_RS: {"lifetime": {"minutes": 5}}, SP_NONE: {"lifetime": {"minutes": 5}}},   # 9 same, with categories
 ]
 EC_TABLE = {  # written from the category specifications, independent of the modules under test
     "refeds": {"": ["edupersontargetedid"], RS: ["edupersonprincipalname", "edupersonscopedaffiliation", "mail", "givenname", "sn", "displayname"]},
@@ -50,9 +53,11 @@ def permitted(pi, sp, identity):
     """Reference release computed from docs/howto/config.rst: entity categories -> declared
     required/optional (when no entity-category policy applies) -> attribute_restrictions."""
     pol = POLICIES[pi]
-    spec = pol.get(sp, pol["default"])
+    # a per-SP entry overrides the default key by key; what it does not set is inherited
+    spec = dict(pol["default"])
+    spec.update(pol.get(sp, {}))
     ava = dict((k, list(v)) for k, v in identity.items())
-    if "entity_categories" in spec:
+    if spec.get("entity_categories"):
         names = set()
         for mod in spec["entity_categories"]:
             for cat, attrs in EC_TABLE[mod].items():
@@ -150,8 +155,8 @@ CONDITIONS = [
                     "assertion.filter_on_attributes", "assertion.filter_attribute_value_assertions", "assertion.post_entity_categories",
                     "mdstore.MetadataStore.attribute_requirement/entity_categories", "attribute_converter.from_local"],
          bounds="identity: every subset of {givenName, surName, mail (1-2 values, matching / not matching the pattern), undeclared 'secret'}; "
-                "8 policy shapes (unrestricted, names+regex, per-SP entry, entity categories with and without an always-released key, "
-                "fail_on_missing_requested off, categories+restrictions); 4 SP declarations (required+optional, nothing, category R&S, two required) - "
+                "10 policy shapes (unrestricted, names+regex, per-SP entry, entity categories with and without an always-released key, "
+                "fail_on_missing_requested off, categories+restrictions, per-SP entries that set only unrelated keys and must inherit the default's restrictions / categories); 4 SP declarations (required+optional, nothing, category R&S, two required) - "
                 "includes unsatisfiable requirements"),
 ]
 
